@@ -19,122 +19,7 @@ use std::panic::{self, AssertUnwindSafe};
 use vharness::streamlib::*;
 use vharness::*;
 
-const WORDS: &[&str] = &[
-    "information", "available", "copyright", "university", "management", "international", "development", "education",
-    "community", "technology", "following", "resources", "including", "directory", "government", "department",
-    "description", "insurance", "different", "categories", "conditions", "accessories", "September", "questions",
-    "application", "financial", "equipment", "performance", "experience", "important", "activities", "additional",
-    "something", "professional", "committee", "washington", "california", "reference", "companies", "computers",
-    "president", "australia", "discussion", "entertainment", "agreement", "marketing", "association", "collection",
-    "solutions", "electronics", "technical", "microsoft", "conference", "environment", "statement", "downloads",
-    "applications", "requirements", "individual", "subscribe", "everything", "production", "commercial", "advertising",
-    "treatment", "newsletter", "knowledge", "currently", "construction", "registered", "protection", "engineering",
-    "published", "corporate", "customers", "materials", "countries", "standards", "political", "advertise",
-    "environmental", "availability", "employment", "commission", "administration", "institute", "sponsored", "electronic",
-    "condition", "effective", "organization", "selection", "corporation", "executive", "necessary", "according",
-    "particular", "facilities", "opportunities", "appropriate", "statistics", "investment", "christmas", "registration",
-    "furniture", "wednesday", "structure", "distribution", "industrial", "potential", "responsible", "communications",
-    "associated", "foundation", "documents", "communication", "independent", "operating", "developed", "telephone",
-    "population", "navigation", "operations", "therefore", "christian", "understand", "publications", "worldwide",
-    "connection", "publisher", "introduction", "properties", "accommodation", "excellent", "opportunity", "assessment",
-    "especially", "interface", "operation", "restaurants", "beautiful", "locations", "significant", "technologies",
-    "manufacturer", "providing", "authority", "considered", "programme", "enterprise", "educational", "employees",
-    "alternative", "processing", "responsibility", "resolution", "publication", "relations", "photography", "components",
-];
-
-fn gen_words(len: usize, seed: u64) -> Vec<u8> {
-    // English words that the static dictionary contains, each used rarely, with the prefixes /
-    // suffixes / capitalisations the 121 transforms produce
-    let mut r = Rng::new(seed);
-    let mut v: Vec<u8> = Vec::with_capacity(len + 32);
-    let sufs = [" ", ", ", ". ", " the ", " of ", "s ", "ing ", "ed ", "=\"", "\">", "\n", ": ", " and ", " in ", "ly ", ".com/", "(", "'"];
-    while v.len() < len {
-        let w = WORDS[r.below(WORDS.len() as u64) as usize];
-        let mut w: Vec<u8> = w.as_bytes().to_vec();
-        match r.below(8) {
-            0 => w[0] = w[0].to_ascii_uppercase(),
-            1 => w = w.to_ascii_uppercase(),
-            2 => {
-                let k = 1 + r.below(3) as usize;
-                w.truncate(w.len() - k);
-            }
-            3 => {
-                let k = 1 + r.below(3) as usize;
-                w.drain(..k);
-            }
-            _ => {}
-        }
-        if r.below(4) == 0 {
-            v.push(b' ');
-        }
-        v.extend_from_slice(&w);
-        v.extend_from_slice(sufs[r.below(sufs.len() as u64) as usize].as_bytes());
-    }
-    v.truncate(len);
-    v
-}
-
-/// data recipes:  <kind>:<len>:<seed> with the streamlib kinds plus
-///   words  - static-dictionary friendly text
-///   dmix   - pieces of the custom dictionary (its tail, its head, slices across its end) interleaved with fresh data
-///   wmix   - words / text / rand / period pieces
-fn gen_input(recipe: &str, dict: &[u8]) -> Vec<u8> {
-    let f: Vec<&str> = recipe.split(':').collect();
-    let len: usize = f[1].parse().unwrap();
-    let seed: u64 = f[2].parse().unwrap();
-    match f[0] {
-        "words" => gen_words(len, seed),
-        "wmix" => {
-            let mut r = Rng::new(seed);
-            let mut v = Vec::new();
-            while v.len() < len {
-                let k = ["words", "text", "rand", "period", "words", "zero"][r.below(6) as usize];
-                let l = 1 + r.below(2500) as usize;
-                if k == "words" {
-                    v.extend(gen_words(l, r.next()));
-                } else {
-                    v.extend(gen_data(k, l, r.next()));
-                }
-            }
-            v.truncate(len);
-            v
-        }
-        "dmix" => {
-            let mut r = Rng::new(seed);
-            let mut v: Vec<u8> = Vec::new();
-            let n = dict.len();
-            let mut first = true;
-            while v.len() < len {
-                let c = if first { 0 } else { r.below(6) };
-                first = false;
-                if n > 0 && c <= 3 {
-                    // a slice of the dictionary: tail, head, middle, or tail followed by head
-                    let l = 1 + r.below(n.min(400) as u64) as usize;
-                    match c {
-                        0 => v.extend_from_slice(&dict[n - l.min(n)..]),
-                        1 => v.extend_from_slice(&dict[..l.min(n)]),
-                        2 => {
-                            let s = r.below(n as u64) as usize;
-                            v.extend_from_slice(&dict[s..(s + l).min(n)]);
-                        }
-                        _ => {
-                            v.extend_from_slice(&dict[n - l.min(n)..]);
-                            v.extend_from_slice(&dict[..l.min(n)]);
-                        }
-                    }
-                } else if c == 4 {
-                    v.extend(gen_words(1 + r.below(300) as usize, r.next()));
-                } else {
-                    let k = ["text", "rand", "skew"][r.below(3) as usize];
-                    v.extend(gen_data(k, 1 + r.below(200) as usize, r.next()));
-                }
-            }
-            v.truncate(len);
-            v
-        }
-        k => gen_data(k, len, seed),
-    }
-}
+include!("../dictgen.rs");
 
 #[derive(Default)]
 struct MbDump {
@@ -507,6 +392,8 @@ fn run_line(t: &[&str]) -> String {
         }));
         match r {
             Ok(Ok(_)) if out == data[..o.consumed] => "ok",
+            // catable / appendable streams have no last meta-block: the decoder delivers everything and then asks for more
+            Ok(Err(_)) if out == data[..o.consumed] => "ok-unterminated",
             _ => "fail",
         }
     } else {
